@@ -355,3 +355,31 @@ Proof.
   cbv zeta. unfold gf_gws_slideWindow_Write_cond1, gf_gws_slideWindow_Write_cond2, gf_gws_slideWindow_Write_cond3, gf_gws_slideWindow_Write_cond4.
   repeat split; try reflexivity; intros; lia.
 Qed.
+
+(* ---- loops: BinaryPow (the window capacity) and ToBinaryNumber (shard count, pool size) ---- *)
+From Gws Require Import Model.ShardMap.
+
+(* BinaryPow(n) = 2^n for every n a window can be created with (and 1 for n <= 0) *)
+Lemma gen_BinaryPow_is n : 0 <= n <= 62 -> gf_internal_BinaryPow n = 2 ^ n.
+Proof.
+  intro H. apply Z.eqb_eq.
+  assert (F : forall b, (b < 63)%N -> (fun b => gf_internal_BinaryPow (Z.of_N b) =? 2 ^ Z.of_N b) b = true)
+    by (apply range_forall; vm_compute; reflexivity).
+  specialize (F (Z.to_N n) ltac:(lia)). cbv beta in F. rewrite Z2N.id in F by lia. exact F.
+Qed.
+
+Lemma window_capacity_from_source bits : (bits <= 15)%nat ->
+  Z.of_nat (sw_size (sw_init bits)) = gf_internal_BinaryPow (Z.of_nat bits).
+Proof.
+  intro H. rewrite gen_BinaryPow_is by lia. unfold sw_init, sw_make. cbn [sw_size].
+  rewrite Nat2Z.inj_pow. reflexivity.
+Qed.
+
+(* ToBinaryNumber: the model's to_binary_number, for every request up to 65536 shards / pool entries *)
+Lemma gen_ToBinaryNumber_is n : (n <= 65536)%N -> gf_internal_ToBinaryNumber (Z.of_N n) = Z.of_N (to_binary_number n).
+Proof.
+  intro H. apply Z.eqb_eq.
+  assert (F : forall b, (b < 65537)%N -> (fun b => gf_internal_ToBinaryNumber (Z.of_N b) =? Z.of_N (to_binary_number b)) b = true)
+    by (apply range_forall; vm_compute; reflexivity).
+  apply (F n). lia.
+Qed.
